@@ -83,7 +83,7 @@ Section Decoder.
     let buf_len := if d_stream_length d <? d_stream_pos d + buf_len
                    then d_stream_length d - d_stream_pos d else buf_len in
     s <- loop (read_step buf_len) 64 {| rl_d := d; rl_out_rev := []; rl_filled := 0 |} ;;
-    let out := rev (rl_out_rev s) in
+    let out := rev_append (rl_out_rev s) [] in      (* = rev, linear time *)
     let d1 := rl_d s in
     let d2 := {| d_inner := d_inner d1; d_cb := d_cb d1; d_outbuf := d_outbuf d1;
                  d_stream_pos := d_stream_pos d1 + rl_filled s;
